@@ -119,7 +119,10 @@ func genC03(g *Gen, tier string, idx int) *wire.Scenario {
 			// one macro in a prefix-free table, its text plain characters that happen to spell the name of a
 			// command (an inputrc slip: quotes around a function name): typing the sequence types the text
 			b.Probe = -1
-			b.Macro = wire.Bytes(Pick(g, []string{"verif-probe-0", "verif-probe-1", "kill-whole-line", "beginning-of-line", "undo", "zq"}))
+			b.Macro = wire.Bytes(Pick(g, []string{"verif-probe-0", "verif-probe-1", "kill-whole-line", "end-of-line", "undo", "zq"}))
+			// (none of these texts begins with a key of the table's alphabet: keys typed in the same read as the
+			// macro's sequence are queued in front of the macro's text -- a listed C05 finding -- and a text that
+			// began with one of them would complete a bound sequence with them)
 		}
 		x.Table = append(x.Table, b)
 	}
